@@ -1,0 +1,12 @@
+//go:build verif
+
+package limiter
+
+// Verification hooks for property C15, round 2 (add-only, compiled only with -tags verif).
+
+import "time"
+
+// VerifGcNow is the collector run by gc(), with a caller-supplied clock (gc() = gcAt(time.Now())).
+// It replaces VerifGcAt (verif_c15.go), which repeats the loop of the collector as it was before
+// gcAt existed.
+func (cl *ClientLimiter) VerifGcNow(now time.Time) { cl.gcAt(now) }
